@@ -68,6 +68,9 @@ def gen_array(rng, np, signed=False):
             vals[rng.randrange(n)] = 0.0
     if signed:
         vals = [v * rng.choice([-1, 1]) for v in vals]
+    if kind in ("dups", "mixed") and rng.random() < 0.25:
+        vals = [float(int(v)) for v in vals]
+        return np.array([int(v) for v in vals], dtype=np.int64).reshape(shape), vals      # integer-typed distances
     return np.array(vals, dtype=float).reshape(shape), vals
 
 
@@ -85,9 +88,9 @@ def run(ctx):
         kw = {}
         explicit_r = rng.random() < 0.4
         if explicit_r:
-            kw["r"] = rng.choice([0.5, 1.0, 2.0, 10.0])
+            kw["r"] = rng.choice([0.5, 1.0, 2.0, 10.0, 1, 2])
         if method == "reciprocal" and rng.random() < 0.4:
-            kw["a"] = rng.choice([0.5, 1.0, 3.0])
+            kw["a"] = rng.choice([0.5, 1.0, 3.0, 1, 3])
         cq = False
         if rng.random() < 0.3 and not explicit_r and max(vals) > 0:
             q = rng.choice([0.25, 0.5, 0.8])
